@@ -75,7 +75,7 @@ def check(ctx):
     # ---- C17.1 ---------------------------------------------------------
     pres = index.module(PRES)
     n = 0
-    for func in [sc] + pres.all_functions():
+    for func in [sc] + pres.live_functions():
         for sub in K.walk_no_nested(func.node):
             if isinstance(sub, ast.Call) and \
                     K.callee_text(sub) == 'zkutils.create':
@@ -151,7 +151,7 @@ def check(ctx):
                "client's")
     # ---- C17.3 ---------------------------------------------------------
     count = 0
-    for func in svc.methods.values():
+    for func in svc.live_methods():
         for inner in [func] + list(func.nested().values()):
             for sub in K.walk_no_nested(inner.node):
                 if isinstance(sub, ast.Call) and _is_zk_write(sub):
@@ -251,7 +251,7 @@ def check(ctx):
     ep = pres.classes.get('EndpointPresence')
     ctx.require(ep is not None, 'presence.EndpointPresence')
     n = 0
-    for func in ep.methods.values():
+    for func in ep.live_methods():
         if not func.name.startswith('unregister'):
             continue
         graph = ctx.cfg(func)
